@@ -278,12 +278,14 @@ Section Preserve.
     destruct K as [Kk K0]. clear Hb.
     destruct (k_notnull g && is_null (snd (fst r))) eqn:Enn; try discriminate.
     destruct (check_ok g (snd (fst r))) eqn:Eck; try discriminate. simpl negb in H. cbv iota in H.
-    destruct (tx_get c t0 k) as [found t1] eqn:Eg.
+    destruct (tx_get c t0 k) as [found0 t1] eqn:Eg.
     assert (I1 : Inv t1).
     { apply (Hmono t0); auto. pose proof (tx_get_mono c t0 k) as M. rewrite Eg in M; exact M. }
+    remember (found0 && negb match alookup k (t_rows t1) with Some (true, _) => true | _ => false end) as found eqn:Efound.
     destruct (negb found && me); try discriminate.
     assert (Hplain : forall reuse, do_upsert g fx c t1 k (snd (fst r)) (snd r) reuse = Ok t' -> Inv t').
     { intros reuse Hd. eapply Hup; eauto. left; auto. }
+    clear Efound.
     destruct m as [| | |colv x]; destruct found; try discriminate; eauto.
     - inversion H; subst; auto.
     - destruct (fetch c t1 k) as [[cur|] t2] eqn:Ef; try discriminate.
